@@ -559,13 +559,18 @@ type c18Site struct {
 // Self: At is the call of the target itself (direct or through a method value).
 func (s c18Site) Self() bool { return len(s.Effs) == 1 && s.Effs[0].Call.In == s.At }
 
-func c18Calls(f *ssa.Function, pat string) []c18Site {
+func c18Calls(f *ssa.Function, pat string) []c18Site { return c18CallsIn(f, nil, pat) }
+
+// c18CallsIn is c18Calls for a function that was itself entered through the
+// call chain fr (a helper followed from the anchored function): arguments of
+// the sites can then be followed back through the helper's parameters.
+func c18CallsIn(f *ssa.Function, fr *nfFrame, pat string) []c18Site {
 	if f == nil {
 		return nil
 	}
 	is := nfNamed(pat)
 	byAt := map[ssa.Instruction]nfSite{}
-	for _, s := range nfMust(f, nil, is, 2) {
+	for _, s := range nfMust(f, fr, is, 2) {
 		byAt[s.At] = s
 	}
 	kindOf := func(in ssa.Instruction) string {
@@ -592,7 +597,7 @@ func c18Calls(f *ssa.Function, pat string) []c18Site {
 		if g == nil {
 			continue
 		}
-		inner := nfMust(g, &nfFrame{call: d}, is, 1)
+		inner := nfMust(g, &nfFrame{call: d, up: fr}, is, 1)
 		if len(inner) == 0 || eng.Reach(eng.Query{Fn: g, Barriers: nfAts(inner), Target: nfIsNormalReturn}) != nil {
 			continue
 		}
@@ -1234,4 +1239,50 @@ func c18Carrier(c *eng.Ctx) {
 			}
 		}
 	}
+}
+
+// c18WithHelpers extends a who-may-call table: a function that is not tabled,
+// is never used as a function value and is called only by tabled functions (or
+// by such helpers) is a piece of its callers — a block extracted into a helper —
+// and holds their role. Fixpoint over the sites' functions.
+func c18WithHelpers(c *eng.Ctx, sites []eng.CallSite, allowed map[string]string) map[string]string {
+	out := map[string]string{}
+	for k, v := range allowed {
+		out[k] = v
+	}
+	for changed := true; changed; {
+		changed = false
+		for _, s := range sites {
+			n := eng.FuncName(eng.TopFunc(s.Fn))
+			if _, ok := out[n]; ok {
+				continue
+			}
+			m, miss := c.P.StaticCallee(n)
+			if len(miss) > 0 || len(c.P.FuncValueUses(n)) > 0 {
+				continue
+			}
+			callers := c.P.FindCalls(m, nil)
+			ok := len(callers) > 0
+			var roles []string
+			seen := map[string]bool{}
+			for _, k := range callers {
+				cn := eng.FuncName(eng.TopFunc(k.Fn))
+				role, tabled := out[cn]
+				if !tabled {
+					ok = false
+					break
+				}
+				if !seen[cn] {
+					seen[cn] = true
+					roles = append(roles, cn+": "+role)
+				}
+			}
+			if ok {
+				sort.Strings(roles)
+				out[n] = "called only by " + strings.Join(roles, "; ")
+				changed = true
+			}
+		}
+	}
+	return out
 }
